@@ -318,14 +318,16 @@ def queries(h, cfg):
     def input_twin(h, fr):
         a, _ = input_delay(h, fr)
         return a, fr[stages + 1].sig(h.g.bus.r_data) != 0
-    return [Q("mode-table-all-pins", k_mode(h), mode_table, twin=mode_twin, max_prefix=2),
-            Q("setclr-codes-all-pins", k_setclr(h), setclr, twin=setclr_twin, max_prefix=2),
-            Q("input-delayed-exactly", k_input(h), input_delay, twin=input_twin, max_prefix=2),
-            Q("two-setclr-writes-back-to-back", k_setclr(h) + nchunks(h, "SetClr"), setclr_twice, max_prefix=2)] + \
-        ([Q("seq-" + "-".join(ops), seq_query(ops)[0](h), seq_query(ops)[1], max_prefix=2)
+    # rooting a free-state counterexample at reset may need the pins configured first (a Mode write, an Output write)
+    PFX = nchunks(h, "Mode") + nchunks(h, "Output") + 2
+    return [Q("mode-table-all-pins", k_mode(h), mode_table, twin=mode_twin, max_prefix=PFX),
+            Q("setclr-codes-all-pins", k_setclr(h), setclr, twin=setclr_twin, max_prefix=PFX),
+            Q("input-delayed-exactly", k_input(h), input_delay, twin=input_twin, max_prefix=PFX),
+            Q("two-setclr-writes-back-to-back", k_setclr(h) + nchunks(h, "SetClr"), setclr_twice, max_prefix=PFX)] + \
+        ([Q("seq-" + "-".join(ops), seq_query(ops)[0](h), seq_query(ops)[1], max_prefix=PFX)
           for ops in (("SW", "OR"), ("SW", "OW"), ("OW", "SW"), ("SW", "OR", "SW"), ("OR", "SW", "OW"), ("SW", "SW", "OR"),
                       ("OW", "OR"), ("SW", "OW", "OR"))] if ((stages == 2 and cfg.get("base")) or P >= 17) else []) + \
-        ([Q("pins-every-cycle-" + "-".join(ops), pins_every_cycle(ops)[0](h), pins_every_cycle(ops)[1], max_prefix=2)
+        ([Q("pins-every-cycle-" + "-".join(ops), pins_every_cycle(ops)[0](h), pins_every_cycle(ops)[1], max_prefix=PFX)
           for ops in (("MW",), ("MW", "OW"), ("SW", "MW"), ("OW", "MW", "SW"))] if (stages == 2 and P <= 5 and cfg.get("base")) else [])
 
 
